@@ -313,7 +313,9 @@ def linearize_measure_contents(part, start, end, state):
 
     for i in range(1, len(splits)):
         contents.extend(
-            linearize_segment_contents(part, splits[i - 1], splits[i], state)
+            linearize_segment_contents(
+                part, splits[i - 1], splits[i], state, last=(i == len(splits) - 1)
+            )
         )
 
     return contents
@@ -420,7 +422,7 @@ def remove_voice_polyphony(notes_by_voice):
 #                 part.add(rest, note.end.t, end.t)
 
 
-def linearize_segment_contents(part, start, end, state):
+def linearize_segment_contents(part, start, end, state, last=True):
     """
     Determine the document order of events starting between `start` (inclusive)
     and `end` (exlusive).
@@ -496,7 +498,7 @@ def linearize_segment_contents(part, start, end, state):
 
     other_e = harmony_e + attributes_e + directions_e + barline_e + prints_e
 
-    contents = merge_measure_contents(voices_e, other_e, start.t, end.t)
+    contents = merge_measure_contents(voices_e, other_e, start.t, end.t, last)
 
     return contents
 
@@ -663,7 +665,7 @@ def merge_with_voice(notes, other, measure_start):
     return result, fb_cost
 
 
-def merge_measure_contents(notes, other, measure_start, measure_end=None):
+def merge_measure_contents(notes, other, measure_start, measure_end=None, last=True):
     merged = {}
     # cost (measured as the total forward/backup jumps needed to merge) all
     # elements in `other` into each voice
@@ -727,7 +729,14 @@ def merge_measure_contents(notes, other, measure_start, measure_end=None):
             pos = elements[-1][0] + (elements[-1][1] or 0)
             reach = max(reach, max(t + (dur or 0) for t, dur, _ in elements))
 
-    if measure_end is not None and reach < measure_end:
+    if measure_end is not None and not last and pos != measure_end:
+        # another stretch of this measure follows (the divisions change): it is
+        # written from the end of this one, wherever the last voice stopped
+        e = etree.Element("forward" if pos < measure_end else "backup")
+        ee = etree.SubElement(e, "duration")
+        ee.text = "{:d}".format(int(abs(measure_end - pos)))
+        result.append(e)
+    elif measure_end is not None and last and reach < measure_end:
         # the content stops before the end of the measure: move on to the
         # end, otherwise a reader takes the measure to be shorter
         if pos < reach:
